@@ -57,5 +57,6 @@ _DWS = OpContract(
     live="(not s.started) if i == 1 else s.started",
 )
 _DWS.late_subscribe = True
+_DWS.must_fail = False  # the function's mutants are judged by the mapper-form contract (this one covers the subscription delay's handlers only)
 
 CONTRACTS = [_REL, _absolute(_REL), _DWM, _DWS]
